@@ -113,6 +113,13 @@ type gen struct {
 	// ParseClaim through the facade vs the parser called directly (written as the last shard)
 	fviews []credgen.View
 	fcases []fcase
+	scases []scase // the 8 component subsets x 4 methods, as observed
+}
+
+type scase struct {
+	v, p, l bool
+	method  string // MValidate | MSlotIndex | MParseClaim | MLoad
+	obs     string // Coq term: SComponent | SNotDefined "x" | SOther
 }
 
 type fcase struct {
@@ -846,18 +853,34 @@ func (g *gen) facade() {
 				os = append(os, processor.WithDocumentLoader(stubLoader{doc: &ld.RemoteDocument{Document: doc}}))
 			}
 			p := processor.InitProcessorOptions(&processor.Processor{}, os...)
+			var lastErr error
+			var lastComponent bool
 			guard := func(method string, f func() string) {
 				rep.Evaluations++
 				rep.Count("facade:subset")
 				var bad string
+				lastErr, lastComponent = nil, false
+				panicked := false
 				func() {
 					defer func() {
 						if r := recover(); r != nil {
 							bad = fmt.Sprintf("panic: %v", r)
+							panicked = true
 						}
 					}()
 					bad = f()
 				}()
+				// what the implementation did, for the model: the component's own answer, "<x> is not defined", other
+				obs := "SOther"
+				switch {
+				case panicked:
+				case lastComponent:
+					obs = "SComponent"
+				case lastErr != nil && strings.HasSuffix(lastErr.Error(), " is not defined"):
+					obs = fmt.Sprintf("SNotDefined %q", strings.TrimSuffix(lastErr.Error(), " is not defined"))
+				}
+				g.scases = append(g.scases, scase{v: mask&1 != 0, p: mask&2 != 0, l: mask&4 != 0,
+					method: map[string]string{"ValidateData": "MValidate", "GetFieldSlotIndex": "MSlotIndex", "ParseClaim": "MParseClaim", "Load": "MLoad"}[method], obs: obs})
 				if bad != "" {
 					fail(fmt.Sprintf("%s on a processor with validator=%v parser=%v loader=%v: %s", method, mask&1 != 0, mask&2 != 0, mask&4 != 0, bad),
 						map[string]any{"subset": mask, "method": method})
@@ -871,6 +894,7 @@ func (g *gen) facade() {
 			}
 			guard("ValidateData", func() string {
 				err := p.ValidateData([]byte("{}"), []byte("{}"))
+				lastErr, lastComponent = err, err == verdict && nV == 1
 				if mask&1 != 0 {
 					if err != verdict || nV != 1 {
 						return fmt.Sprintf("expected the validator's own answer, got %v after %d validator call(s)", err, nV)
@@ -881,6 +905,7 @@ func (g *gen) facade() {
 			})
 			guard("GetFieldSlotIndex", func() string {
 				i, err := p.GetFieldSlotIndex("f", "t", []byte("{}"))
+				lastErr, lastComponent = err, err == nil && i == 6
 				if mask&2 != 0 {
 					if i != 6 || err != nil {
 						return fmt.Sprintf("expected the parser's own answer (6, nil), got (%d, %v)", i, err)
@@ -891,6 +916,7 @@ func (g *gen) facade() {
 			})
 			guard("ParseClaim", func() string {
 				c, err := p.ParseClaim(ctx, verifiable.W3CCredential{}, &processor.CoreClaimOptions{})
+				lastErr, lastComponent = err, err == nil && c == cl
 				if mask&2 != 0 {
 					if c != cl || err != nil {
 						return fmt.Sprintf("expected the parser's own answer, got (%v, %v)", c, err)
@@ -904,6 +930,7 @@ func (g *gen) facade() {
 			})
 			guard("Load", func() string {
 				b, err := p.Load(ctx, "https://x")
+				lastErr, lastComponent = err, err == nil && string(b) == string(wantDoc)
 				if mask&4 != 0 {
 					if err != nil || string(b) != string(wantDoc) {
 						return fmt.Sprintf("expected the loader's document, got (%s, %v)", b, err)
@@ -1198,8 +1225,15 @@ func (g *gen) writeShards() error {
 		}
 		f.Add("Definition creds_ : list cred := [" + strings.Join(credNames, "; ") + "].")
 		f.Add("Definition oracles_ : raw_oracles := " + or.Coq(f) + ".")
+		var ss []string
+		for _, c := range g.scases {
+			ss = append(ss, fmt.Sprintf("mks %d %s %s %s %s (%s)", id, coqgen.Bool(c.v), coqgen.Bool(c.p), coqgen.Bool(c.l), c.method, c.obs))
+			g.rep.Case(name, id, map[string]any{"facade": map[string]any{"validator": c.v, "parser": c.p, "loader": c.l, "method": c.method}})
+			id++
+		}
 		f.Add("Definition fcases_ : list fcase := " + coqgen.List(fs) + ".")
-		f.Add("Definition M := Eval vm_compute in fmismatches oracles_ creds_ fcases_.")
+		f.Add("Definition scases_ : list scase := " + coqgen.List(ss) + ".")
+		f.Add("Definition M := Eval vm_compute in (fmismatches oracles_ creds_ fcases_ ++ smismatches scases_)%list.")
 		f.Add("Print M.")
 		if err := f.Write(name); err != nil {
 			return err
